@@ -5,14 +5,14 @@ CONSTANTS
   MinDuration = 3600
   MaxTries = 10
   MaxH = 100000
-  MaxOC = 3
+  MaxOC = 1
   MaxSC = 3
-  MaxEvents = 0
+  MaxEvents = 3
   Sizes = {1000}
   Durs = {3600}
-  Timeouts = {300, 1800}
+  Timeouts = {300, 1800, 3600}
   UpdOps = {}
-  Replicas = {1, 2}
+  Replicas = {1, 2, 3}
 PROPERTY EventuallySettled
 PROPERTY EventuallyGone
 CHECK_DEADLOCK FALSE
